@@ -274,36 +274,11 @@ def rule_nonempty_dict(ctx):
   R = "R-C18-NONEMPTY-DICT"
   repo = ctx.repo
   f = repo.func("ecdsa_sig_checks", "_MapIssuerSigIndexes")
-  body = f.node.body
-  # d = collections.defaultdict(list); only mutation d[k].append(x); returned
-  var = None
-  for st in body:
-    if isinstance(st, ast.Assign) and isinstance(st.value, ast.Call) and ast.unparse(st.value) in ("collections.defaultdict(list)", "defaultdict(list)"):
-      var = st.targets[0].id if isinstance(st.targets[0], ast.Name) else None
-  ok = var is not None
-  why = "" if ok else "index map is not a defaultdict(list)"
-  if ok:
-    for n in ast.walk(f.node):
-      if isinstance(n, ast.Subscript) and isinstance(n.value, ast.Name) and n.value.id == var and isinstance(n.ctx, ast.Store):
-        ok = False
-        why = "index map entries are assigned directly (could be empty lists)"
-      if isinstance(n, ast.Call) and isinstance(n.func, ast.Attribute) and isinstance(n.func.value, ast.Name) and n.func.value.id == var:
-        ok = False
-        why = "index map mutated by .%s()" % n.func.attr
-      if isinstance(n, ast.Subscript) and isinstance(n.value, ast.Name) and n.value.id == var and isinstance(n.ctx, ast.Load):
-        pass
-    appends = [n for n in ast.walk(f.node) if isinstance(n, ast.Call) and isinstance(n.func, ast.Attribute) and n.func.attr == "append"
-               and isinstance(n.func.value, ast.Subscript) and isinstance(n.func.value.value, ast.Name) and n.func.value.value.id == var]
-    others = [n for n in ast.walk(f.node) if isinstance(n, ast.Call) and isinstance(n.func, ast.Attribute)
-              and isinstance(n.func.value, ast.Subscript) and isinstance(n.func.value.value, ast.Name) and n.func.value.value.id == var
-              and n.func.attr != "append"]
-    if not appends or others:
-      ok = False
-      why = "entries are not created exclusively by d[k].append(i)"
-    rets = [n for n in ast.walk(f.node) if isinstance(n, ast.Return)]
-    if not all(isinstance(r.value, ast.Name) and r.value.id == var for r in rets):
-      ok = False
-      why = "returns something else than the index map"
+  # d = collections.defaultdict(list); only mutation d[k].append(x); returned (decided on values, shared with R-C02-SANITISE)
+  from . import c02 as _c02
+  mp = _c02.issuer_map_problems(repo)
+  ok = not mp
+  why = "; ".join(sorted(set(mp)))
   ctx.record(R, f.where, "defaultdict(list) + append only", ok, why or "every value of the issuer index map is a non-empty list")
   # consumers indexing [-1]/[0] of a per-issuer collection must draw it from that map
   for cname in ("CheckCr50U2f", "BiasedBaseCheck"):
@@ -338,9 +313,12 @@ def nonempty_provenance(fn, var):
     return False
   idxs = it.id
   for n in ast.walk(fn):
-    if isinstance(n, ast.For) and isinstance(n.target, ast.Tuple) and len(n.target.elts) == 2 and isinstance(n.target.elts[1], ast.Name) \
-       and n.target.elts[1].id == idxs and isinstance(n.iter, ast.Call) and isinstance(n.iter.func, ast.Attribute) and n.iter.func.attr == "items" \
-       and isinstance(n.iter.func.value, ast.Name):
+    over_items = isinstance(n, ast.For) and isinstance(n.target, ast.Tuple) and len(n.target.elts) == 2 and isinstance(n.target.elts[1], ast.Name) \
+        and n.target.elts[1].id == idxs and isinstance(n.iter, ast.Call) and isinstance(n.iter.func, ast.Attribute) and n.iter.func.attr == "items" \
+        and isinstance(n.iter.func.value, ast.Name)
+    over_values = isinstance(n, ast.For) and isinstance(n.target, ast.Name) and n.target.id == idxs and isinstance(n.iter, ast.Call) \
+        and isinstance(n.iter.func, ast.Attribute) and n.iter.func.attr == "values" and isinstance(n.iter.func.value, ast.Name)
+    if over_items or over_values:
       pks = n.iter.func.value.id
       if any(x is assign for x in ast.walk(n)):
         for a in ast.walk(fn):
